@@ -45,8 +45,13 @@ const FMTS: [&str; 5] = ["hex", "pal", "gpl", "ice", "txt"];
 fn pal_from(colors: &[(u8, u8, u8)]) -> Palette {
     let mut p = Palette::new();
     p.clear();
-    for (r, g, b) in colors {
-        p.push(Color::new(*r, *g, *b));
+    for (i, (r, g, b)) in colors.iter().enumerate() {
+        // some entries carry a name (palettes loaded from ICE / GPL files do): a name is not part of the colour
+        let mut c = Color::new(*r, *g, *b);
+        if i % 3 == 1 {
+            c.name = Some(format!("colour {i}"));
+        }
+        p.push(c);
     }
     p
 }
@@ -66,7 +71,15 @@ fn run_ops(start: &[(u8, u8, u8)], ops: &[Op]) -> Option<(usize, String)> {
         }
         match op {
             Op::Insert(r, g, b) | Op::InsertColor(r, g, b) => {
-                let idx = if matches!(op, Op::Insert(..)) { p.insert_color_rgb(*r, *g, *b) } else { p.insert_color(Color::new(*r, *g, *b)) };
+                let idx = if matches!(op, Op::Insert(..)) {
+                    p.insert_color_rgb(*r, *g, *b)
+                } else {
+                    let mut c = Color::new(*r, *g, *b);
+                    if step % 2 == 1 {
+                        c.name = Some(format!("inserted at {step}"));
+                    }
+                    p.insert_color(c)
+                };
                 let want = (*r, *g, *b);
                 let existing = model.iter().position(|c| *c == want);
                 if let Some(e) = existing {
@@ -122,7 +135,11 @@ fn run_ops(start: &[(u8, u8, u8)], ops: &[Op]) -> Option<(usize, String)> {
                 model[i] = (*r, *g, *b);
             }
             Op::Push(r, g, b) => {
-                p.push(Color::new(*r, *g, *b));
+                let mut c = Color::new(*r, *g, *b);
+                if step % 3 == 0 {
+                    c.name = Some(format!("pushed at {step}"));
+                }
+                p.push(c);
                 model.push((*r, *g, *b));
             }
             Op::Resize(n) => {
@@ -360,7 +377,7 @@ impl Prop for C16 {
         "C16"
     }
     fn rule(&self) -> &'static str {
-        "(ops) seeded sequences of insert_color / insert_color_rgb / re-insert of a present colour / set_color(_rgb) / push / resize / get_rgb on palettes of 0..=300 colours run in lock-step with a Vec<(u8,u8,u8)> reference model; after every insert: the returned index resolves to the colour, every index valid before resolves as before, a present colour returns an existing index. (file) palettes of 0..=256 random colours with empty / non-empty title, author, description (digits, '#', ';', blanks) and optional colour names exported to Hex, JASC PAL, GIMP GPL, ICE and Paint.NET TXT and imported again: same RGB sequence. (6bit) all 64^3 six-bit colours: as_vec_63(from_63(c)) == c and from_63 idempotent; ADF EGA codec round trip. distinct_nontrivial = distinct (op-kind sequence, start size) / (format, size, title/description present) / 6-bit red values"
+        "(ops) seeded sequences of insert_color / insert_color_rgb / re-insert of a present colour / set_color(_rgb) / push / resize / get_rgb on palettes of 0..=300 colours run in lock-step with a Vec<(u8,u8,u8)> reference model (every third start colour, every third pushed and every second inserted Color carries a name: names are not part of a colour); after every insert: the returned index resolves to the colour, every index valid before resolves as before, a present colour returns an existing index. (file) palettes of 0..=256 random colours with empty / non-empty title, author, description (digits, '#', ';', blanks) and optional colour names exported to Hex, JASC PAL, GIMP GPL, ICE and Paint.NET TXT and imported again: same RGB sequence. (6bit) all 64^3 six-bit colours: as_vec_63(from_63(c)) == c and from_63 idempotent; ADF EGA codec round trip. distinct_nontrivial = distinct (op-kind sequence, start size) / (format, size, title/description present) / 6-bit red values"
     }
     fn meta(&self, ctx: &Ctx) -> Value {
         json!({"floor_evaluations": 2000, "floor_distinct": ctx.tier.pick(1000u64, 5000u64),
